@@ -77,7 +77,7 @@ pub fn checks(tier: Tier) -> Vec<Check> {
     vec![Check {
         name: "C17.group-traits".into(),
         strategy: strategy(),
-        cases: tier.scale(40_000, 20),
+        cases: tier.scale(200_000, 8),
         exec: Box::new(crate::ops::exec),
         oracle: Box::new(crate::mops::group_ops::oracle),
         classify: Box::new(classify),
